@@ -12,6 +12,8 @@
 //	rep   Bridge.reportTrafficStats under a forced interleaving (gated CloudControl)
 //	brg   Bridge.Close, cleanup report racing the periodic goroutine's final report
 //	sp    StreamProcessor.Close against an in-flight ReadPacket/WritePacket (gated transport)
+//	rm    dispose.ResourceManager: Register / DisposeAll from many goroutines, then the last DisposeAll
+//	rep2  several bridges of one mapping reporting to the same record (known finding: overlapping reports lose a delta)
 //	cst   client mapping handler: reportStats ticks / calls / failing calls racing the final report on Close (TrackTraffic gated)
 //	bat   Bridge.Close and connections attached between Close calls (late SetTarget/SetSourceConnection)
 //	bg    Close while the storage cleaner / session sweep is mid-tick (storage lock held by a parked reader)
@@ -66,6 +68,10 @@ func exec(caseStr string) (obs string) {
 			return runBat(t)
 		case "cst":
 			return runCst(t)
+		case "rep2":
+			return runRep2(t)
+		case "rm":
+			return runRm(t)
 		}
 		return "bad case"
 	})
@@ -174,7 +180,7 @@ func replayFile(out *vc.Out, path string) {
 
 // ---- generators
 
-var tunClosers = []string{"c0", "c1", "c2", "c3", "c4", "c5", "p", "a", "x"}
+var tunClosers = []string{"c0", "c1", "c2", "c3", "c4", "c5", "p", "a", "x", "t1", "t3"}
 
 func gen(out *vc.Out, r *vc.Rand, thorough bool) {
 	mul := 1
@@ -245,6 +251,16 @@ func gen(out *vc.Out, r *vc.Rand, thorough bool) {
 			emit(out, "", fmt.Sprintf("rep r 1 a %d %d t 2 s %d %s", 100+l, code, l, joinInts(s)))
 		}
 	}
+	for l := 0; l <= 4; l++ {
+		for code := 0; code < 1<<l; code++ {
+			s := make([]int, l)
+			for i := range s {
+				s[i] = code >> i & 1
+			}
+			f := []string{"g 1 0", "u 1 0", "g 1 0 u 1 1"}[(l+code)%3]
+			emit(out, "", strings.TrimSpace(fmt.Sprintf("rep r 2 a %d %d t 2 s %d %s", 50+l, code, l, joinInts(s)))+" "+f+" a 1 1 t 1 s 0")
+		}
+	}
 	for i := 0; i < 60*mul; i++ {
 		rounds := 1 + r.Intn(3)
 		c := fmt.Sprintf("rep r %d", rounds)
@@ -259,6 +275,13 @@ func gen(out *vc.Out, r *vc.Rand, thorough bool) {
 			c += fmt.Sprintf(" a %d %d t %d s %d", as, ar, n, l)
 			if l > 0 {
 				c += " " + joinInts(s)
+			}
+			// storage faults: some reporter's GetPortMapping / UpdatePortMappingStats fails
+			if r.Intn(3) == 0 {
+				c += fmt.Sprintf(" g 1 %d", r.Intn(n))
+			}
+			if r.Intn(3) == 0 {
+				c += fmt.Sprintf(" u 1 %d", r.Intn(n))
 			}
 		}
 		emit(out, "", c)
@@ -277,6 +300,32 @@ func gen(out *vc.Out, r *vc.Rand, thorough bool) {
 		emit(out, "", fmt.Sprintf("sp op z chunks 0 cut -1 n %d rep %d %s", n, 20*mul, ms()))
 	}
 	emit(out, "", fmt.Sprintf("sp op z chunks 0 cut -1 n 16 rep %d %s", 50*mul, ms()))
+
+	// rm: ResourceManager — every multiset of ≤ 4 concurrent Register / DisposeAll calls on 0–2 resources
+	for pre := 0; pre <= 2; pre++ {
+		for n := 1; n <= 4; n++ {
+			for regs := 0; regs <= n; regs++ {
+				ops := make([]string, n)
+				for i := range ops {
+					if i < regs {
+						ops[i] = "r"
+					} else {
+						ops[i] = "d"
+					}
+				}
+				l := r.Intn(3 * n)
+				sc := make([]int, l)
+				for i := range sc {
+					sc[i] = r.Intn(n)
+				}
+				emit(out, "", strings.TrimSpace(fmt.Sprintf("rm pre %d ops %d %s s %d %s", pre, n, strings.Join(ops, " "), l, joinInts(sc)))+fmt.Sprintf(" rep %d %s", 20*mul, ms()))
+			}
+		}
+	}
+	// rep2: several bridges of one mapping, sequential reports (the overlapping ones are the known finding, in the corpus)
+	emit(out, "", "rep2 b 2 100 7 s 4 0 0 1 1 rep 1 "+ms())
+	emit(out, "", "rep2 b 3 5 6 7 s 6 2 2 0 0 1 1 rep 1 "+ms())
+	emit(out, "crossbridge-lost-update", "rep2 b 2 100 7 s 4 0 1 0 1 rep 1 "+ms())
 
 	// cst: client mapping handler, reportStats × (tick | call | failing call | Close), TrackTraffic gated:
 	// every schedule of length ≤ 4 over two threads for every pair of kinds, then random crowds
@@ -411,7 +460,7 @@ func gen(out *vc.Out, r *vc.Rand, thorough bool) {
 	}
 
 	// mgr: storage and session manager, several closer counts
-	for _, kind := range []string{"st", "sm"} {
+	for _, kind := range []string{"st", "sm", "mh"} {
 		for _, n := range []int{1, 2, 8} {
 			emit(out, "", fmt.Sprintf("mgr kind %s n %d rep %d %s", kind, n, 5*mul, ms()))
 		}
